@@ -56,46 +56,57 @@ structure T1Res where
   req : Option ((Nat × Nat × Nat × Bytes) × Bytes)   -- the request transmitted: Block1 (num, m, szx), payload; its token
   deriving Repr
 
-/-- `handle_response()` for a response without Block2 option carrying token `tok`: `ok` = class 2, `blk` = its Block1
-option (num, szx) -/
+structure S1Res where
+  c : Cli1T                     -- the session afterwards
+  ret : Bool                    -- the function returned 1
+  tok : Bytes                   -- rcvd's token afterwards
+  out : Option B1Out            -- none = no lg_xmit matched
+  req : Option ((Nat × Nat × Nat × Bytes) × Bytes)
+
+/-- `coap_handle_response_send_block(session, sent, rcvd)` for a response carrying token `tok`: `ok` = class 2, `blk` =
+its Block1 option (num, szx) -/
+def sendStep1T (room : Nat) (c : Cli1T) (tok : Bytes) (ok : Bool) (blk : Option (Nat × Nat)) : S1Res :=
+  match c.xmit with
+  | some xm =>
+    if tokHit tok xm.appTok xm.state then
+      match xmitB1Step xm.x room ok blk with
+      | (some x', .sendNext n m sx p) =>
+        let count' := (xm.count + 1) % 2 ^ 32
+        { c := { c with xmit := some { xm with x := x', count := count' } }, ret := true, tok := tok,
+          out := some (.sendNext n m sx p), req := some ((n, m, sx, p), encodeVar8 (stateTokenFull xm.state count')) }
+      | (some x', o) => { c := { c with xmit := some { xm with x := x' } }, ret := true, tok := tok, out := some o, req := none }
+      | (none, o) =>
+        -- fail_body is only reached behind `++lg_xmit->b.b1.count`
+        let cnt := if o = .fail500 then (xm.count + 1) % 2 ^ 32 else xm.count
+        -- lg_xmit_finished:
+        let crcv' := if xm.link then
+            c.crcv.map fun cr =>
+              if stateTokenBase xm.state = stateTokenBase cr.state then { cr with state := xm.state, retry := cnt % 65536 }
+              else cr
+          else c.crcv
+        { c := { c with xmit := none, crcv := crcv', released := c.released ++ [stateTokenBase xm.state] }, ret := false,
+          tok := (if xm.link then tok else xm.appTok), out := some o, req := none }
+    else { c := c, ret := false, tok := tok, out := none, req := none }
+  | none => { c := c, ret := false, tok := tok, out := none, req := none }
+
+/-- `coap_handle_response_get_block` for a response WITHOUT Block2 option carrying token `tok1` (it returns 0): the
+session afterwards and rcvd's token afterwards — "need to put back original token into rcvd", "Expire this entry" /
+`expire_lg_crcv:` -/
+def getStep1T (c1 : Cli1T) (tok1 : Bytes) : Cli1T × Bytes :=
+  match c1.crcv with
+  | some cr =>
+    if tokHit tok1 cr.appTok cr.state then
+      ({ c1 with crcv := none, xmit := unlinkXmit c1.xmit, released := c1.released ++ [stateTokenBase cr.state] }, cr.appTok)
+    else (c1, tok1)
+  | none => (c1, tok1)
+
+/-- `handle_response()` of coap_net.c -/
 def rspStep1T (room : Nat) (c : Cli1T) (tok : Bytes) (ok : Bool) (blk : Option (Nat × Nat)) : Cli1T × T1Res :=
-  -- coap_handle_response_send_block: (state afterwards, return value, rcvd's token afterwards, …)
-  let sb : Cli1T × Bool × Bytes × Option B1Out × Option ((Nat × Nat × Nat × Bytes) × Bytes) :=
-    match c.xmit with
-    | some xm =>
-      if tokHit tok xm.appTok xm.state then
-        match xmitB1Step xm.x room ok blk with
-        | (some x', .sendNext n m sx p) =>
-          let count' := (xm.count + 1) % 2 ^ 32
-          ({ c with xmit := some { xm with x := x', count := count' } }, true, tok, some (.sendNext n m sx p),
-            some ((n, m, sx, p), encodeVar8 (stateTokenFull xm.state count')))
-        | (some x', o) => ({ c with xmit := some { xm with x := x' } }, true, tok, some o, none)
-        | (none, o) =>
-          -- fail_body is only reached behind `++lg_xmit->b.b1.count`
-          let cnt := if o = .fail500 then (xm.count + 1) % 2 ^ 32 else xm.count
-          -- lg_xmit_finished:
-          let crcv' := if xm.link then
-              c.crcv.map fun cr =>
-                if stateTokenBase xm.state = stateTokenBase cr.state then { cr with state := xm.state, retry := cnt % 65536 }
-                else cr
-            else c.crcv
-          ({ c with xmit := none, crcv := crcv', released := c.released ++ [stateTokenBase xm.state] }, false,
-            (if xm.link then tok else xm.appTok), some o, none)
-      else (c, false, tok, none, none)
-    | none => (c, false, tok, none, none)
-  if sb.2.1 then (sb.1, { out := sb.2.2.2.1, handler := false, shown := sb.2.2.1, req := sb.2.2.2.2 })
+  let sb := sendStep1T room c tok ok blk
+  if sb.ret then (sb.c, { out := sb.out, handler := false, shown := sb.tok, req := sb.req })
   else
-    -- coap_handle_response_get_block, no Block2 option in the response
-    let c1 := sb.1
-    let tok1 := sb.2.2.1
-    match c1.crcv with
-    | some cr =>
-      if tokHit tok1 cr.appTok cr.state then
-        -- "need to put back original token into rcvd", expire_lg_crcv / "Expire this entry"
-        ({ c1 with crcv := none, xmit := unlinkXmit c1.xmit, released := c1.released ++ [stateTokenBase cr.state] },
-          { out := sb.2.2.2.1, handler := true, shown := cr.appTok, req := none })
-      else (c1, { out := sb.2.2.2.1, handler := true, shown := tok1, req := none })
-    | none => (c1, { out := sb.2.2.2.1, handler := true, shown := tok1, req := none })
+    let g := getStep1T sb.c sb.tok
+    (g.1, { out := sb.out, handler := true, shown := g.2, req := none })
 
 /-- the application hands a body to libcoap and sends the request (token `app`): the supersede search of
 coap_add_data_large_internal, the new lg_xmit if the body needs blocks (`lgx` = its LgXmit), then coap_send_lkd: an
